@@ -10,6 +10,7 @@ def run(ctx, rep):
                 "coef_/intercept_ must be stationary for the objective transcribed from the docstring; LinearSVC: dual "
                 "feasibility, dual stationarity and the primal image; one fit = one evaluation")
     est_common.run_doc_objectives(ctx, rep)
+    est_common.run_plumbing(ctx, rep)
 
 
 def replay(ctx, payload):
